@@ -1,10 +1,17 @@
 #!/bin/bash
-# Runs every seeded change against the quick check of the property it breaks (through scratch worktrees,
-# /repo is left alone) and prints one line per seed.  Expected: exit 1 (VIOLATION) except for the seeds whose
-# meta.json says "not caught" / "void".
+# usage: ./run_seed_matrix.sh [property ids...]   (default: all)
+# Runs every seeded change against the quick check of the property it breaks (through scratch worktrees, /repo is
+# left alone) and prints one line per seed.  Expected: exit 1 (VIOLATION) except for the seeds whose meta.json says
+# "not caught" / "void".  NOTE: rewrites evidence/<id>.json with results from the seeded trees - regenerate the
+# evidence (run_quick_all.sh) afterwards.
+cd /verif
+ids="$*"
 for d in /verif/seeded/*/; do
   n=$(basename $d); id=${n%%_*}
+  if [ -n "$ids" ] && ! echo " $ids " | grep -q " $id "; then continue; fi
   out=$(./seedtest_wt.sh $d/patch.diff $id --tier quick 2>&1 | tail -1)
-  nv=$(grep -c VIOLATION /tmp/seedtest_wt.$id.log 2>/dev/null)
-  echo "$n $out violations=$nv"
+  nv=$(grep -c "^VIOLATION" /tmp/seedtest_wt.$id.log 2>/dev/null)
+  nc=$(grep -c "counterexample" /tmp/seedtest_wt.$id.log 2>/dev/null)
+  he=$(grep -c "^HARNESS-ERROR" /tmp/seedtest_wt.$id.log 2>/dev/null)
+  echo "$n $out violations=$nv counterexamples=$nc harness_errors=$he $(date -u +%T)"
 done
